@@ -15,3 +15,7 @@ package types
 // verif:func (ClientState).VerifyPacketAcknowledgement
 //@ ensures [tss-signer] result == nil ==> string(proof) == m.TssAddress
 //@ ensures [reject]     string(proof) != m.TssAddress ==> result != nil
+
+// ---- a consensus state reports the client type of its own light client (C13: exported genesis validates) ----
+// verif:func (ConsensusState).ClientType
+//@ ensures [type-agree] result == (&ClientState{}).ClientType()
